@@ -186,6 +186,8 @@ def axiom_instances(terms, extra_points=()):
             x = a.arg(0)
             new.append(z3.Implies(x > 0, F_exp(a) == x))
             new.append(z3.Implies(x == 1, a == 0))
+            new.append(z3.Implies(x > 1, a > 0))
+            new.append(z3.Implies(z3.And(x > 0, x < 1), a < 0))
         for i, a in enumerate(lg):
             for b in lg[i + 1:]:
                 x, y = a.arg(0), b.arg(0)
